@@ -111,7 +111,7 @@ def run_sweep(case: Dict[str, Any]) -> Dict[str, Any]:
 def build_cases(tier, seed):
     cases = []
     rnd = random.Random(seed + 14)
-    ngrid, per = (24, 1500) if tier == "quick" else (200, 4000)
+    ngrid, per = (24, 1500) if tier == "quick" else (640, 4000)
     for j in range(ngrid):
         net = {"type": "grid", "n": rnd.randint(4, 9), "seed": rnd.randint(0, 10**6), "speeds": rnd.choice(["varied", "varied", "mixed", "slow"]), "oneway": rnd.choice([0.0, 0.2, 0.4]), "delete": rnd.choice([0.0, 0.1, 0.2]), "dlat": rnd.choice([0.001, 0.002, 0.01]), "dlon": rnd.choice([0.0012, 0.0025, 0.012]), "stretch": rnd.choice([1.0, 1.3, 2.0])}
         cases.append({"engine": "c14_sweep", "id": f"C14-grid{j}", "seed": seed * 1000 + j, "net": net, "n": per})
